@@ -180,7 +180,7 @@ def jobs(tier):
     js.append(Job("recover-T3-default-after-an-angle-limited-build", "c01:recover", dict(topo="T3", method=None, pre_limit=2 * np.pi / 3, light=True),
                   budget_s=900, max_paths=400, weight=3, opts=dict(final_timeout_ms=60000, cheap_forks=True)))
     # O1 link (placement of the coefficients), re-run from C02-B on the smallest tissues
-    for t in ("T3", "K3-n0"):
+    for t in ("T3", "K3-n0", "T4"):
         js.append(Job(f"matrix-{t}", "c02:matrix", dict(topo=t, ignore_four=None), budget_s=600, max_paths=3000))
     # O1 link, re-run for the regions in which the tangent itself is wrong (known findings are printed under C01 too)
     for ccw in (True, False):
@@ -188,6 +188,7 @@ def jobs(tier):
             for fit in ("dlite", "taubinSVD"):
                 js.append(Job(f"tangent-n3-{'ccw' if ccw else 'cw'}-{end}-{fit}", "c02:tangent",
                               dict(n=3, ccw=ccw, end=end, fit=fit), budget_s=300))
+    js.append(Job("tangent-n3-ccw-first-dlite-radius=1e-07", "c02:tangent", dict(n=3, ccw=True, end="first", fit="dlite", radius=1e-7), budget_s=300))
     for end in ("first", "last"):
         js.append(Job(f"two-point-dlite-{end}", "c02:two_point", dict(fit="dlite", end=end), budget_s=300))
     return js
